@@ -167,7 +167,9 @@ class CEmitter:
             else:
                 cap = f"{owner}_{name}_ARRAY_CAPACITY_"
                 # a count above the storage capacity is reported as such (never read past the array): marker word + count
-                L.append(f"if ({ref}{name}.count > {cap}) {{ out_put(o, UINT64_C(0xBADC0DE0BADC0DE0)); out_put(o, (uint64_t) {ref}{name}.count); }} else {{")
+                # (bit-packed arrays physically hold a multiple of 8 elements: the bound is the storage, not the nominal capacity)
+                bound = f"(sizeof({ref}{name}.bitpacked) * 8U)" if isbool else cap
+                L.append(f"if ({ref}{name}.count > {bound}) {{ out_put(o, UINT64_C(0xBADC0DE0BADC0DE0)); out_put(o, (uint64_t) {ref}{name}.count); }} else {{")
                 L.append(f"  out_put(o, (uint64_t) {ref}{name}.count);")
                 if isbool:
                     L.append(f"  for (size_t {i} = 0; {i} < {ref}{name}.count; {i}++) out_put(o, ({ref}{name}.bitpacked[{i} / 8U] >> ({i} % 8U)) & 1U); }}")
